@@ -752,7 +752,7 @@ def applyRetainSnapshot (rt : Runtime) (snap : Snapshot) : Runtime :=
 /-- `IndexMap::eq` as used by `RetainSnapshot == RetainSnapshot`: same length and every entry of
 the first found with an equal value in the second (order-insensitive).  Values are compared
 structurally; the IEEE corner cases of the derived `PartialEq` (NaN, ±0.0) are C10's subject
-(`c10_manager_counterexample_negzero`) and outside this model's value abstraction. -/
+(`c10_manager_negzero_saved`) and outside this model's value abstraction. -/
 def snapSub : Snapshot → Snapshot → Bool
   | [], _ => true
   | (k, v) :: rest, other =>
